@@ -404,6 +404,11 @@ class TBus(EventBus):
                 RT.rec('walWrite', p=proc(self), b=b, e=e, ok=False, why='serialise', expected=opaque)
 
     async def execute_handler(self, event, handler, *a, **kw):       # (extra / renamed parameters are handed through untouched)
+        # a forwarding handler is the library's own bound method `other.dispatch` - no body of ours runs for it: note which
+        # registration is being executed, so that the dispatch it makes can be attributed to its instance
+        k_ = RT.hidx.get((RT.busidx.get(self), id(handler)))
+        # (with the task: the handler tasks of a parallel bus share one context)
+        tok_ = FWD.set((RT.busidx.get(self), k_, asyncio.current_task())) if k_ is not None and RT.hkind.get(k_) == 'forward' else None
         try:
             return await super().execute_handler(event, handler, *a, **kw)
         except RuntimeError as ex:
@@ -416,6 +421,12 @@ class TBus(EventBus):
                 x = [EXECUTOR.get()] if EXECUTOR.get() is not None else (RT.act.get((b, e)) or ['?'])
                 RT.rec('hSkip', x=x[-1], b=b, e=e, h=k)
             raise
+        finally:
+            if tok_ is not None:
+                try:
+                    FWD.reset(tok_)
+                except ValueError:
+                    pass
 
     async def _run_loop(self):
         rt = RT
@@ -429,12 +440,10 @@ class TBus(EventBus):
     def dispatch(self, event):
         e = eid(event)
         p = proc()
-        hid = svc._current_handler_id_context.get()
-        if svc.inside_handler_context.get() and hid:
+        fw = FWD.get()
+        if svc.inside_handler_context.get() and fw is not None and fw[2] is asyncio.current_task():
             # a forwarding handler is the bound method `other.dispatch`: no body of ours runs, find its instance
-            bid, fid = hid.split('.')
-            src = next((i for bb, i in RT.busidx.items() if str(id(bb)) == bid), None)
-            k = next((kk for (bi, hh), kk in RT.hidx.items() if bi == src and str(hh) == fid), None)
+            src, k, _task = fw
             if k is not None and RT.hkind.get(k) == 'forward':
                 cur = svc._current_event_context.get()
                 ce = RT.eid.get(cur.event_id) if cur is not None else None
@@ -473,11 +482,12 @@ class TBus(EventBus):
     def _start(self):
         old_task = self._runloop_task
         had_queue = self.event_queue is not None
-        if INST.get() is not None:
+        if INST.get() is not None or FWD.get() is not None:
             # started from inside a handler: the run-loop task inherits a copy of that handler's context (bubus' own
-            # variables included) - all but the harness's note of which handler instance is acting
+            # variables included) - all but the harness's notes of which handler instance / forwarding handler is acting
             ctx = contextvars.copy_context()
             ctx.run(INST.set, None)
+            ctx.run(FWD.set, None)
             ctx.run(super()._start)
         else:
             super()._start()
@@ -547,6 +557,7 @@ class TBusB(TBus):
 
 EXECUTOR = contextvars.ContextVar('verif_harness_executor', default=None)
 INST = contextvars.ContextVar('verif_harness_instance', default=None)
+FWD = contextvars.ContextVar('verif_harness_forward', default=None)    # (bus, registration) of the forwarding handler being executed
 
 
 def traced_event_result_update(self, handler, eventbus=None, **kwargs):
